@@ -135,8 +135,25 @@ SIBLING = dict(json='tail', IntArray='ia2', StrArray='sa2', FloatArray='fa2')
 PROVENANCES = ('db', 'literal', 'ctor', 'peer', 'peernested', 'sibling', 'ctorpeer', 'donor', 'selfnested')
 PHASES = ('pending', 'flushed', 'committed')
 MODIFIERS = ('', 'dirty-scalar', 'dirty-json', 'dirty-inplace', 'clean-other')
+# loading path '@<load>': HOW a database value reaches obj._vals_ (which converter call site builds the tracked value)
+#   (none)     Entity[pk]: the row is fetched with all columns (Entity._db_set_)
+#   lazy       the Json/array attributes are declared lazy=True: separate SELECT on first access (Attribute.db_set)
+#   lazyload   lazy=True attributes fetched by an explicit obj.load()
+#   volatile   the Json/array attributes are declared volatile=True (no read bit; the value is dropped at every save
+#              and fetched again on the next access)
+#   partial    the object comes from select_by_sql() with the id and a scalar column only; the rest is fetched on
+#              first access (Entity._load_)
+#   refetch    after the setup the rows are fetched AGAIN by a query (Entity._db_set_ on objects that hold values)
+LOADS = ('', 'lazy', 'lazyload', 'volatile', 'partial', 'refetch')
+LOAD_DECL = dict(lazy=dict(lazy=True), lazyload=dict(lazy=True), volatile=dict(volatile=True))
+
+def origin_load(origin):
+    load = origin.partition('@')[2]
+    assert load in LOADS, origin
+    return load
 
 def parse_origin(origin):
+    origin = origin.partition('@')[0]
     base, _, mod = origin.partition('+')
     prov, phase = ALIASES.get(base, base).split('-')
     assert prov in PROVENANCES and phase in PHASES and mod in MODIFIERS, origin
@@ -147,6 +164,7 @@ class Context(object):
     def __init__(self, vk, origin, doc):
         self.vk, self.origin, self.doc = vk, origin, doc
         self.prov, self.phase, self.mod = prov, phase, mod = parse_origin(origin)
+        self.load = origin_load(origin)
         self.json = js = vk == 'json'
         self.target = t = 'data' if js else space.ARRAY_ATTR[vk]
         self.sib = sib = SIBLING[vk]
@@ -181,25 +199,34 @@ class Context(object):
 
     def setup(self, env):
         """inside a db_session; returns (obj, peer or None)"""
-        orm, ent, t, doc = env.orm, (env.E if self.json else env.A), self.target, self.doc
-        prov, peer = self.prov, None
+        orm, ent, t, doc = env.orm, env.entity(self.vk, self.load), self.target, self.doc
+        prov, peer, load = self.prov, None, self.load
+        def fetch(pk):
+            if load == 'partial':
+                o = ent.select_by_sql('select id, note from "%s" where id = %d' % (ent._table_, pk))[0]
+            else: o = ent[pk]
+            if load == 'lazyload': o.load()
+            return o
         if prov in ('ctor', 'ctorpeer'):
             kw = copy.deepcopy(self.ctor_row)
             if prov == 'ctor': kw[t] = copy.deepcopy(doc)
             else:
-                peer = ent[2]; kw[t] = getattr(peer, t)
+                peer = fetch(2); kw[t] = getattr(peer, t)
             obj = ent(id=1, **kw)
         else:
-            obj = ent[1]
+            obj = fetch(1)
             if prov == 'db': getattr(obj, t)
             elif prov == 'literal': setattr(obj, t, copy.deepcopy(doc))
-            elif prov == 'peer': peer = ent[2]; setattr(obj, t, getattr(peer, t))
-            elif prov == 'peernested': peer = ent[2]; setattr(obj, t, getattr(peer, t)['w'])
+            elif prov == 'peer': peer = fetch(2); setattr(obj, t, getattr(peer, t))
+            elif prov == 'peernested': peer = fetch(2); setattr(obj, t, getattr(peer, t)['w'])
             elif prov == 'sibling': setattr(obj, t, getattr(obj, self.sib))
-            elif prov == 'donor': peer = ent[2]; setattr(peer, t, getattr(obj, t))
+            elif prov == 'donor': peer = fetch(2); setattr(peer, t, getattr(obj, t))
             elif prov == 'selfnested': setattr(obj, t, getattr(obj, t)['w'])
         if self.phase == 'flushed': orm.flush()
         elif self.phase == 'committed': orm.commit()
+        if load == 'refetch':
+            again = ent.select().order_by(ent.id)[:]
+            assert obj in again
         mod = self.mod
         if mod == 'dirty-scalar': obj.note = 'x'
         elif mod == 'dirty-json': obj.other = copy.deepcopy(self.other2)
@@ -237,23 +264,19 @@ class Env(object):
         self.pid = os.getpid()
         self.orm = orm
         db = self.db = orm.Database()
-        class E(db.Entity):
-            id = orm.PrimaryKey(int)
-            note = orm.Optional(str)
-            other = orm.Optional(orm.Json)
-            data = orm.Optional(orm.Json)
-            tail = orm.Optional(orm.Json)
-        class A(db.Entity):
-            id = orm.PrimaryKey(int)
-            note = orm.Optional(str)
-            other = orm.Optional(orm.IntArray)
-            ia = orm.Optional(orm.IntArray)
-            sa = orm.Optional(orm.StrArray)
-            fa = orm.Optional(orm.FloatArray)
-            ia2 = orm.Optional(orm.IntArray)
-            sa2 = orm.Optional(orm.StrArray)
-            fa2 = orm.Optional(orm.FloatArray)
-        self.E, self.A = E, A
+        def entity(name, columns, **decl):
+            # the same attributes in the same order; `decl` (lazy=True / volatile=True) on every Json/array attribute
+            attrs = [('id', orm.PrimaryKey(int)), ('note', orm.Optional(str))]
+            attrs += [(n, orm.Optional(t, **decl)) for n, t in columns]
+            return type(name, (db.Entity,), dict(attrs))
+        jcols = [('other', orm.Json), ('data', orm.Json), ('tail', orm.Json)]
+        acols = [('other', orm.IntArray), ('ia', orm.IntArray), ('sa', orm.StrArray), ('fa', orm.FloatArray),
+                 ('ia2', orm.IntArray), ('sa2', orm.StrArray), ('fa2', orm.FloatArray)]
+        self.entities = {}
+        for suffix, decl in (('', {}), ('L', dict(lazy=True)), ('V', dict(volatile=True))):
+            self.entities[True, suffix] = entity('E' + suffix, jcols, **decl)
+            self.entities[False, suffix] = entity('A' + suffix, acols, **decl)
+        self.E, self.A = self.entities[True, ''], self.entities[False, '']
         # private in-memory database; the pooled connection survives between db_sessions, every
         # db_session has a fresh cache, so a new session can only see what was really written
         db.bind('sqlite', ':memory:', factory=RecConnection)
@@ -263,10 +286,14 @@ class Env(object):
         from pony.orm.ormtypes import TrackedValue
         self.TrackedValue = TrackedValue
 
+    def entity(self, vk, load):
+        suffix = 'L' if load in ('lazy', 'lazyload') else 'V' if load == 'volatile' else ''
+        return self.entities[vk == 'json', suffix]
+
     # -- fixture ------------------------------------------------------------------------------
     def reset(self, cx):
         raw = self.raw
-        table = 'E' if cx.json else 'A'
+        table = self.entity(cx.vk, cx.load)._table_
         raw.execute('delete from %s' % table)
         for pk in (1, 2):
             row = cx.rows[pk]
@@ -296,7 +323,7 @@ def run_program(prog, diagnose=False):
     readonly = prog.get('readonly', False)
     cx = Context(vk, origin, doc)
     env.reset(cx)
-    ent = env.E if vk == 'json' else env.A
+    ent = env.entity(vk, cx.load)
     plain = Holder(copy.deepcopy(doc))
     if attrname != 'data': setattr(plain, attrname, plain.data)
     problems, states, notes = [], [], []
@@ -427,6 +454,16 @@ def signature(prog, res):
     vkind = 'json' if prog['vk'] == 'json' else 'array'
     def shape(m, j):
         return '%s:%s%s:%s' % (m['ckind'], m['op'], '!raises' if j in res['raised'] else '', m['route'])
+    if '@' in prog['origin']:
+        # a loading path: is it part of the minimal shape? (the same program with the value loaded by Entity[pk])
+        plain_origin = prog['origin'].partition('@')[0]
+        r = run_program(dict(prog, origin=plain_origin))
+        if r['problems']: return signature(dict(prog, origin=plain_origin), r)
+        feature = '@' + origin_load(prog['origin'])
+        if len(metas) == 1:
+            return '%s:ctx[%s]:%s:%s' % (vkind, feature, shape(metas[0], 0), primary)
+        return '%s:ctx[%s]:seq[%s%s%s]:%s' % (vkind, feature, shape(metas[0], 0),
+                                             ' ; flush ; ' if prog.get('flush') else ' ; ', shape(metas[1], 1), primary)
     if prog['origin'] not in ALIASES:
         # a context beyond the five historical origins: is the context part of the minimal shape?
         r = run_program(dict(prog, origin='loaded'))
@@ -515,6 +552,10 @@ def _one(sub, prog):
     if prog['origin'] not in ALIASES:
         sub.count('programs_in_added_contexts')
         sub.count('context:%s:%s' % (prog['origin'], 'readonly' if prog.get('readonly') else 'len%d' % len(prog['steps'])))
+    load = origin_load(prog['origin'])
+    if load:
+        sub.count('programs_with_loading_path')
+        sub.count('loading_path:%s' % load)
     sub.count('status_before_first_step:%s' % res['mark_status'])
     if res['refused']: sub.count('steps_refused_by_pony', res['refused'])
     for n in res['notes']: sub.count(n)
@@ -524,6 +565,7 @@ def _one(sub, prog):
     if res['changed']: sub.count('programs_changing_the_value')
     prov, _, mod = parse_origin(prog['origin'])
     if prov in ('db', 'literal', 'ctor'): prov = ''       # the historical origins: told apart by the status alone
+    if load: prov += '@' + load
     for st, cur in res['states']:
         # a state = value kind, provenance of the value, pending change elsewhere, object status, value
         sub.states.add(hashlib.md5(('%s|%s|%s|%s|%s' % (prog['vk'], prov, mod, st, cur)).encode()).hexdigest()[:12])
@@ -553,9 +595,19 @@ RO_CONTEXTS = ('db-pending+dirty-scalar', 'db-pending+dirty-inplace', 'db-commit
                'sibling-flushed', 'ctorpeer-pending', 'ctorpeer-flushed', 'donor-pending', 'donor-flushed',
                'selfnested-flushed')
 LEN2_CONTEXTS = ('db-pending+dirty-scalar', 'peer-pending', 'sibling-pending', 'donor-pending')
+# loading paths x the contexts in which a value (re)enters memory from the database
+LOAD_BASES = ('db-pending', 'db-committed', 'db-pending+dirty-inplace', 'literal-flushed', 'ctor-flushed',
+              'sibling-pending', 'donor-pending')
+LOAD_RO_BASES = ('db-pending', 'literal-flushed', 'donor-pending')
+LOAD_LEN2_BASES = ('db-pending', 'literal-flushed')
 
 def applicable(vk, origin):
-    return vk == 'json' or parse_origin(origin)[0] not in ('peernested', 'selfnested')
+    prov = parse_origin(origin)[0]
+    if prov == 'ctor' and origin_load(origin) in ('lazy', 'lazyload', 'partial'): return False   # nothing is loaded
+    return vk == 'json' or prov not in ('peernested', 'selfnested')
+LOAD_CONTEXTS = tuple('%s@%s' % (b, l) for l in LOADS[1:] for b in LOAD_BASES if applicable('json', '%s@%s' % (b, l)))
+LOAD_RO_CONTEXTS = tuple('%s@%s' % (b, l) for l in LOADS[1:] for b in LOAD_RO_BASES)
+LOAD_LEN2_CONTEXTS = tuple('%s@%s' % (b, l) for l in LOADS[1:] for b in LOAD_LEN2_BASES)
 
 def plan(ctx):
     items = []
@@ -572,11 +624,11 @@ def plan(ctx):
         for origin in RO_ORIGINS:
             for ch in chunks(n[True]['all'], 100):
                 items.append(dict(vk=vk, doc=docname, origin=origin, mode='ro', routes='all', first=ch))
-        for origin in CONTEXTS:
+        for origin in CONTEXTS + LOAD_CONTEXTS:
             if not applicable(vk, origin): continue
             for ch in chunks(n[False][wide], 100):
                 items.append(dict(vk=vk, doc=docname, origin=origin, mode='len1', routes=wide, first=ch))
-        for origin in RO_CONTEXTS:
+        for origin in RO_CONTEXTS + LOAD_RO_CONTEXTS:
             if not applicable(vk, origin): continue
             for ch in chunks(n[True][wide], 100):
                 items.append(dict(vk=vk, doc=docname, origin=origin, mode='ro', routes=wide, first=ch))
@@ -587,7 +639,7 @@ def plan(ctx):
             combos = [('core', 'all', ('loaded',), (True,)),
                       ('core', 'core', ('loaded',), (False,)),
                       ('core', 'core', ('inserted', 'updated'), (True,)),
-                      ('attr', 'attr', LEN2_CONTEXTS, (True,))]
+                      ('attr', 'attr', LEN2_CONTEXTS + LOAD_LEN2_CONTEXTS, (True,))]
         for r1, r2, origins2, flushes in combos:
             n1 = len(space.steps(vk, doc, readonly=False, routes=r1))
             for origin in origins2:
@@ -617,12 +669,17 @@ def run(ctx):
     ctx.guard('programs in the added contexts', c.get('programs_in_added_contexts', 0), 10000)
     for st in ('loaded', 'inserted', 'updated', 'created', 'modified'):
         ctx.guard('programs starting from status %s' % st, c.get('status_before_first_step:%s' % st, 0), 500)
+    for load in LOADS[1:]:
+        ctx.guard('programs with loading path %s' % load, c.get('loading_path:%s' % load, 0), 3000)
     ctx.guard('contexts with a second object', sum(v for k, v in c.items() if k.startswith(
         ('context:peer', 'context:ctorpeer', 'context:donor'))), 3000)
     ctx.cov['bounds'] = dict(
         documents=[list(d) for d in space.DOCUMENTS], nesting=2, program_length=2,
         length1_routes='all', length1_origins=list(ORIGINS), readonly_origins=list(RO_ORIGINS),
         added_contexts=list(CONTEXTS), added_readonly_contexts=list(RO_CONTEXTS),
+        loading_paths=list(LOADS[1:]), loading_path_contexts=list(LOAD_CONTEXTS),
+        loading_path_readonly_contexts=list(LOAD_RO_CONTEXTS),
+        loading_path_length2='none' if ctx.quick else 'attr x attr with a flush between the steps in %s' % (LOAD_LEN2_CONTEXTS,),
         added_context_routes='{attr, full alias}' if ctx.quick else 'all',
         added_context_length2='none' if ctx.quick else 'attr x attr with a flush between the steps in %s' % (LEN2_CONTEXTS,),
         length2=('step1 through the attribute (augmented assignments also through a full alias) x step2 routes '
